@@ -57,6 +57,11 @@ def compare(cases, rtol=1e-9, atol=1e-12):
             continue
         rt, at = c.get('rtol', rtol), c.get('atol', atol)
         sc = c.get('scale')
+        if sc == 'auto':
+            # entries of a matrix-valued result arise from products of its largest entries with factors (cos near 90 deg, differences)
+            # whose ABSOLUTE rounding error is ~1e-16: the absolute tolerance is relative to the largest entry of the result
+            fin = [abs(v) for v in iv if math.isfinite(v)]
+            sc = max(fin) if fin else None
         for k, (x, y) in enumerate(zip(mv, iv)):
             a_eff = at if sc is None else at * sc
             if not close(x, y, rt, a_eff):
